@@ -10,7 +10,8 @@ Case (JSON):
   {"intent": [["lit",s] | ["ph",name,rxtext|null] | ["rest",name]...],      the pattern is render(intent)
    "kw": [[key, ["one",ATOM] | ["many",[ATOM...]]]...], "elems": [ATOM...],
    "script": str, "host": str, "query": str|null, "anchor": str|null [, "expect_fail": clause]}
-  ATOM = ["s",text] | ["b",[byte...]] | ["i","-12"] | ["o","1.5"|"None"|"True"]
+  ATOM = ["s",text] | ["b",[byte...]] | ["i","-12"] | ["o","1.5"|"None"|"True"|"False"|"1.0"|"0.0"|"2.50" (a Decimal)]
+  optional "history": [[ATOM...]...] — element tuples of earlier route_path calls on the same route (the lru_cache)
 """
 import json, re, sys
 from urllib.parse import unquote_to_bytes, urlparse
@@ -34,7 +35,9 @@ RXLIB = {
     r'\w+': ["rep", True, 1, None, ["esc", "w", False]],
     r'[^/\.]+': ["rep", True, 1, None, ["set", True, [["c", 47], ["c", 46]]]],
 }
-OTHER = {'1.5': 1.5, 'None': None, 'True': True}
+import decimal
+OTHER = {'1.5': 1.5, 'None': None, 'True': True, 'False': False, '1.0': 1.0, '0.0': 0.0,
+         '2.50': decimal.Decimal('2.50')}       # the last one: str() and repr() differ
 NAMES = ['a', 'b', 'c', 'x', 'y', 'id', 'slug', 'name', 'year', 'p_1', 'traverse', 'subpath', 'fizz', 'Zed']
 UNRESERVED = set('abcdefghijklmnopqrstuvwxyzABCDEFGHIJKLMNOPQRSTUVWXYZ0123456789_.-~')
 PATH_SAFE_STMT = set("~!$&'()*+,;=:@/")           # RFC 3986 pchar minus unreserved/pct, plus '/': what a path may hold
@@ -381,10 +384,14 @@ def impl(case):
     if case['anchor'] is not None:
         special['_anchor'] = case['anchor']
     out = {'template': closure_var(route.generate, 'gen')}
+    # every case starts from an empty element cache, so that a case (with its explicit history) is self-contained and
+    # replays alone; the cache sits on _join_text_elements since 9c714c3, on _join_elements before
+    import pyramid.url
+    for fname in ('_join_text_elements', '_join_elements'):
+        fn = getattr(pyramid.url, fname, None)
+        if hasattr(fn, 'cache_clear'):
+            fn.cache_clear()
     if case.get('history'):
-        # earlier calls in the same process (F-C06b): the element-joining cache starts empty, then sees these
-        import pyramid.url
-        pyramid.url._join_elements.cache_clear()
         hreq = Request(dict(env))
         hreq.registry = registry
         for h in case['history']:
@@ -421,8 +428,6 @@ def impl(case):
                 out['seen'] = seen.get('v', {'err': 'no-view-ran'})
             except Exception as e:
                 out['seen'] = {'err': err_name(e)}
-    if case.get('history'):
-        pyramid.url._join_elements.cache_clear()
     return out
 
 
@@ -507,7 +512,7 @@ def decode_model(o):
     if o.get('compile') != 'ok':
         return {'compile': o.get('compile')}
     return {'compile': 'ok', 'template': txt(o['template']), 'gen': dec_res(o['gen']), 'closed': dec_res(o['closed']),
-            'path': dec_res(o['path']), 'url': dec_res(o['url']), 'pathinfo': o['pathinfo'], 'decoded': txt(o['decoded']),
+            'path': dec_res(o['path']), 'url': dec_res(o['url']), 'path_nocache': dec_res(o['path_nocache']), 'pathinfo': o['pathinfo'], 'decoded': txt(o['decoded']),
             'match': dec_env(o['match']), 'expect': dec_env(o['expect']), 'intended': txt(o['intended']),
             'admissible': o['admissible'], 'restnolf': o['restnolf']}
 
@@ -536,6 +541,8 @@ def compare(case, got, mo, an):
     outside = any(v[0] == 'many' and k != an['rest'] for k, v in case['kw'])
     if got['template'] != mo['template']:
         diffs.append(('template', got['template'], mo['template']))
+    if mo['path'] != mo['path_nocache']:
+        diffs.append(('cache-transparent', mo['path'], mo['path_nocache']))
     if mo['gen'] != mo['closed']:
         diffs.append(('closed-form', mo['gen'], mo['closed']))
     if outside:
@@ -665,21 +672,6 @@ def classify(case, an, bad):
         d = bad[0][1]
         if isinstance(d, list) and d[0] is None:
             return 'F-C06a'
-    if bad and all(c == 'elements-appended' for c, _ in bad) and case.get('history'):
-        # F-C06b: an element that is == (and hash-equal) to an element of another type passed at the same position of
-        # an earlier call with as many elements, and comes out as that earlier element's text
-        d = bad[0][1]
-        if len(bad) == 1 and isinstance(d, list) and len(d) == 2 and isinstance(d[0], list) and len(d[0]) == len(case['elems']):
-            segs, want = d
-            for h in case['history']:
-                if len(h) != len(case['elems']):
-                    continue
-                try:
-                    same = tuple(atom_py(a) for a in h) == tuple(atom_py(a) for a in case['elems'])
-                except Exception:
-                    same = False
-                if same and [atom_text(a) for a in h] == segs and segs != want:
-                    return 'F-C06b'
     return None
 
 
@@ -858,6 +850,7 @@ def gen_kw(rng, intent, pool):
     return kw
 
 
+EQUAL_CLASSES = [[['i', '1'], ['o', 'True'], ['o', '1.0']], [['i', '0'], ['o', 'False'], ['o', '0.0']]]
 SCRIPTS = ['', '', '', '', '/app', '/scr ipt', '/é', '/a/b', '/x%41', '/q?#', '/日本']
 HOSTS = ['example.com', 'example.com:8080', 'localhost:80', 'h.example.org:443']
 QUERIES = [None, None, None, 'a=1&b=2', 'x y?#/é', '?']
@@ -883,21 +876,46 @@ def gen_case(rng, intent=None):
             text = gen_text(rng, allow_empty=rng.random() < 0.1)
             if rng.random() < 0.2:
                 text = rng.choice(['a/b', '/', 'x/', text + '/' + text])
-        a = gen_atom(rng, text, p_other=0.1)
-        if a == ['o', 'True']:
-            a = ['o', 'None']                   # True == 1: kept for the F-C06b family only (the lru_cache of _join_elements)
+        r = rng.random()
+        if r < 0.12:
+            a = rng.choice(EQUAL_CLASSES)[rng.randrange(3)]     # 1 / True / 1.0, 0 / False / 0.0
+        else:
+            a = gen_atom(rng, text, p_other=0.1)
         elems.append(a)
-    return {'intent': it, 'kw': kw, 'elems': elems, 'script': rng.choice(SCRIPTS), 'host': rng.choice(HOSTS),
+    history = []
+    if elems and rng.random() < 0.3:
+        # earlier calls whose elements compare equal (==, hash) to this call's but print differently, plus noise
+        for _ in range(rng.choice([1, 1, 2, 3])):
+            h = []
+            for a in elems:
+                cls = [c for c in EQUAL_CLASSES if a in c]
+                if cls and rng.random() < 0.85:
+                    h.append(rng.choice(cls[0]))
+                elif a[0] == 's' and rng.random() < 0.3:
+                    h.append(['b', list(a[1].encode('utf-8'))])
+                else:
+                    h.append(a)
+            if rng.random() < 0.15:
+                h = h[:-1]
+            history.append(h)
+    case = {'intent': it, 'kw': kw, 'elems': elems, 'script': rng.choice(SCRIPTS), 'host': rng.choice(HOSTS),
             'query': rng.choice(QUERIES), 'anchor': rng.choice(ANCHORS)}
+    if history:
+        case['history'] = history
+    return case
 
 
 def equal_elements_cases():
-    """F-C06b: `_join_elements` is memoised on the tuple of elements, and 1 == True == 1.0 as dictionary keys"""
+    """the repaired F-C06b: before 9c714c3 `_join_elements` was memoised on the tuple of elements themselves, and
+    1 == True == 1.0 (0 == False == 0.0) as dictionary keys; every ordered pair of each class, alone and behind a str"""
     base = {'intent': [['lit', '/s']], 'kw': [], 'script': '', 'host': 'example.com', 'query': None, 'anchor': None}
     out = []
-    for first, then in ((['o', 'True'], ['i', '1']), (['i', '1'], ['o', 'True']), (['i', '0'], ['i', '0'])):
-        out.append(dict(base, history=[[first]], elems=[then]))
-        out.append(dict(base, history=[[['s', 'x'], first]], elems=[['s', 'x'], then]))
+    for cls in EQUAL_CLASSES:
+        for first in cls:
+            for then in cls:
+                out.append(dict(base, history=[[first]], elems=[then]))
+                out.append(dict(base, history=[[['s', 'x'], first]], elems=[['s', 'x'], then]))
+    out.append(dict(base, history=[[['s', 'a']], [['b', [97]]]], elems=[['s', 'a']]))
     return out
 
 
@@ -976,7 +994,7 @@ def new_dist():
     return {'tokens': {}, 'placeholders_per_pattern': {}, 'rest': 0, 'custom_regex': 0, 'value_types': {}, 'rest_forms': {},
             'elements': {}, 'script': {}, 'outcomes': {}, 'admissible': 0, 'not_admissible': {}, 'roundtrips_performed': 0,
             'needs_quoting': 0, 'non_ascii_value': 0, 'reserved_in_value': 0, 'missing_value': 0, 'unquotable': 0,
-            'outside_model': 0, 'config_error': 0, 'known_F-C06a': 0, 'known_F-C06b': 0, 'excluded_points_replayed': 0, 'query': 0, 'anchor': 0}
+            'outside_model': 0, 'config_error': 0, 'known_F-C06a': 0, 'with_history': 0, 'history_equal_other_type': 0, 'excluded_points_replayed': 0, 'query': 0, 'anchor': 0}
 
 
 def note_dist(dist, case, info):
@@ -999,6 +1017,14 @@ def note_dist(dist, case, info):
         if k == an['rest']:
             bump(dist['rest_forms'], 'string' if v[0] == 'one' else 'sequence')
     bump(dist['elements'], str(len(case['elems'])))
+    if case.get('history'):
+        dist['with_history'] += 1
+        try:
+            if any(len(h) == len(case['elems']) and h != case['elems']
+                   and tuple(atom_py(a) for a in h) == tuple(atom_py(a) for a in case['elems']) for h in case['history']):
+                dist['history_equal_other_type'] += 1
+        except Exception:
+            pass
     bump(dist['script'], 'empty' if not case['script'] else 'set')
     if case['query'] is not None:
         dist['query'] += 1
